@@ -24,6 +24,27 @@ FIRST = {
  'C18-m1': ['C18'], 'C18-m2': [],
  'C19-m1': ['C19'], 'C19-m2': ['C19'],
  'C20-m1': ['C20'], 'C20-m2': ['C20'],
+ # round 2 (m3, m4): agents were told what round 1 had tried and asked for something different in kind
+ 'C01-m3': ['C01', 'C18'], 'C01-m4': ['C16'],
+ 'C02-m3': ['C02', 'C06', 'C09', 'C17'], 'C02-m4': [],   # every check inconclusive: the harness did not compile (new AST variant)
+ 'C03-m3': ['C03', 'C04', 'C06'], 'C03-m4': ['C03', 'C09', 'C17'],
+ 'C04-m3': ['C04'], 'C04-m4': ['C04'],
+ 'C05-m3': ['C05', 'C07'], 'C05-m4': ['C05', 'C09', 'C10', 'C12'],
+ 'C06-m3': ['C06'], 'C06-m4': ['C06'],
+ 'C07-m3': ['C05', 'C07', 'C09', 'C12'], 'C07-m4': ['C07'],
+ 'C08-m3': ['C08'], 'C08-m4': [],
+ 'C09-m3': ['C02', 'C03', 'C05', 'C09'], 'C09-m4': ['C09', 'C12'],
+ 'C10-m3': ['C05', 'C10'], 'C10-m4': ['C09', 'C10', 'C14'],
+ 'C11-m3': [], 'C11-m4': [],
+ 'C12-m3': ['C12'], 'C12-m4': [],
+ 'C13-m3': ['C03', 'C04', 'C05', 'C06', 'C09', 'C13', 'C14', 'C15'], 'C13-m4': [],
+ 'C14-m3': ['C09', 'C14'], 'C14-m4': ['C14'],
+ 'C15-m3': ['C15'], 'C15-m4': ['C14', 'C15'],
+ 'C16-m3': ['C16'], 'C16-m4': ['C16'],
+ 'C17-m3': ['C17'], 'C17-m4': [],
+ 'C18-m3': ['C18'], 'C18-m4': ['C18'],
+ 'C19-m3': ['C19'], 'C19-m4': ['C19'],
+ 'C20-m3': ['C20'], 'C20-m4': [],
 }
 # after strengthening the owning check (re-run of the owning check only)
 AFTER = {
@@ -38,6 +59,15 @@ AFTER = {
  'C12-m1': (['C12'], 'C12: 15 more referencing constructs (every macro body/predicate position, map receivers, nested macros) with the macro mention first'),
  'C12-m2': (['C12'], 'C12: collisions in receiver position (x.f() on a non-map and on a map) besides f(x)'),
  'C18-m2': (['C18'], 'C18: grid of malformed f-string placeholders with newlines at indented / lower positions'),
+ 'C01-m4': (['C01'], 'C01: time-zone names east / west of UTC, fixed offsets and an unknown zone in the built-in sweep pools (boundary instants x zone)'),
+ 'C02-m4': (['C02'], 'harness: catch-all arms over rscel\'s public enums so that a new AST variant / opcode / error variant does not break the build; C02: dot-leading float literals as operands and ?: slots, and a rejected tight rendering is now a violation (it was silently ignored)'),
+ 'C08-m4': (['C08'], 'C08: argument kind "call of an unbound function" (a failure that is not an absent variable)'),
+ 'C11-m3': (['C11'], 'C11: programs that need exactly the whole call-depth budget and runaway recursions in the history pool and the short-sequence alphabet'),
+ 'C11-m4': (['C11'], 'C11: map comparisons with one failing and one differing entry, in histories and on 16 threads'),
+ 'C12-m4': (['C12', 'C07'], 'C12 / C07: stored programs that read a macro loop variable, referenced from loop bodies (per element, two loops, outside then inside, nested, through a chain); the reference model now evaluates a referenced program under the bindings in effect at the reference'),
+ 'C13-m4': (['C13'], 'C13: a backslash followed by 8 or 9 is asserted to be a malformed octal escape (was listed as unspecified)'),
+ 'C17-m4': (['C17'], 'C17: loop-variable names that also occur free in the range / reduce seed; the generator now re-uses outer variable names as loop variables'),
+ 'C20-m4': (['C20'], 'C20: the SQL re-parser lets a type name absorb a following [..] / (..) as SQL does - which also exposed the same defect on the unchanged tree for the empty map literal (repaired, 0ecc3cf)'),
 }
 for d in sorted(os.listdir(ROOT)):
     p = os.path.join(ROOT, d)
